@@ -1,7 +1,7 @@
 (* Properties/C19.v — general expression parser: totality, conventional precedence,
    sound folding, display round trip.  Statements only; proofs are in Proofs/Expr*.v. *)
-From Coq Require Import ZArith NArith List Bool Reals Lia.
-From SV Require Import Base.Num Base.Outcome Base.Str Model.Expr Model.RefExpr Proofs.ExprTotal.
+From Coq Require Import ZArith NArith List Bool Reals Lia Lra.
+From SV Require Import Base.Num Base.Outcome Base.Str Model.Expr Model.RefExpr Proofs.ExprTotal Proofs.ExprFold.
 Import ListNotations.
 
 (* 1. TOTALITY, for every number type (so for reals and for f64): the lexer, parse_expr given
@@ -23,3 +23,53 @@ Print Assumptions c19_total.
 (* non-vacuity: the fuel outcome exists in the model and is reached with too little fuel *)
 Example c19_fuel_outcome_reachable : @parse_expr R 1 [TLParen; TVar [120%N]; TRParen] 0 = Panic WFuel.
 Proof. reflexivity. Qed.
+
+(* 3. SOUND FOLDING.  Wherever the unfolded tree has a value, the folded tree has the same value —
+   under the premise [pow_safe e rho] (Proofs/ExprFold.v), which excludes exactly the situation in
+   which the rule 0^_ = 0 fires on an exponent whose value at rho is 0:
+     pow_safe (EBin o l r _) rho := pow_safe l rho /\ pow_safe r rho /\
+        (o = OCaret -> is_num 0 (foldS l) = true -> is_num 0 (foldS r) = false -> denote r rho <> Some 0)
+     pow_safe _ rho := True
+   All other rules (0*_, _*0, _^0, 0+_, _+0, _-0, 0-_, _/1) are proved sound without premise. *)
+Theorem c19_fold_sound : forall (e : expr R) (rho : env) (v : R),
+  denote e rho = Some v -> pow_safe e rho ->
+  exists e', fold_operations e = Ok e' /\ denote e' rho = Some v.
+Proof. exact Proofs.ExprFold.c19_fold_sound_lemma. Qed.
+Check c19_fold_sound : forall (e : expr R) (rho : env) (v : R),
+  denote e rho = Some v -> pow_safe e rho ->
+  exists e', fold_operations e = Ok e' /\ denote e' rho = Some v.
+Print Assumptions c19_fold_sound.
+
+(* the same with a premise that does not mention the fold: no power sub-expression is 0^0 at rho *)
+Theorem c19_fold_sound_no_zero_pow_zero : forall (e : expr R) (rho : env) (v : R),
+  denote e rho = Some v -> no_zero_pow_zero e rho ->
+  exists e', fold_operations e = Ok e' /\ denote e' rho = Some v.
+Proof. exact Proofs.ExprFold.c19_fold_sound_no_zero_pow_zero_lemma. Qed.
+Check c19_fold_sound_no_zero_pow_zero : forall (e : expr R) (rho : env) (v : R),
+  denote e rho = Some v -> no_zero_pow_zero e rho ->
+  exists e', fold_operations e = Ok e' /\ denote e' rho = Some v.
+Print Assumptions c19_fold_sound_no_zero_pow_zero.
+
+(* the unrestricted statement is FALSE for the code as it is (finding F16d): 0^x at x = 0 *)
+Theorem c19_fold_refuted :
+  exists (e e' : expr R) (rho : env) (v : R),
+    denote e rho = Some v /\ fold_operations e = Ok e' /\ denote e' rho <> Some v.
+Proof. exact Proofs.ExprFold.c19_fold_refuted_lemma. Qed.
+Check c19_fold_refuted :
+  exists (e e' : expr R) (rho : env) (v : R),
+    denote e rho = Some v /\ fold_operations e = Ok e' /\ denote e' rho <> Some v.
+Print Assumptions c19_fold_refuted.
+
+(* non-vacuity of the premise: (0 + x*y) ^ 2 at x = 3, y = 5 is pow_safe and has the value 225 *)
+Example c19_fold_nonvacuous :
+  let e := EBin OCaret (EBin OAdd (ENum 0%R) (EBin OMul (EVar [120%N]) (EVar [121%N]) false) true) (ENum 2%R) false in
+  let rho := fun v : str => match v with [120%N] => 3%R | _ => 5%R end in
+  pow_safe e rho /\ exists v, denote e rho = Some v.
+Proof.
+  cbn. split.
+  - repeat split; try discriminate.
+    intros _ H. exfalso. revert H. cbn [n0 RNum].
+    unfold Reqb. destruct (Req_EM_T 0 0); [|contradiction]. cbn. discriminate.
+  - unfold pow_val. destruct (is_integer_dec 2) as [_|N]; [|exfalso; apply N; apply (is_integer_IZR 2)].
+    destruct (Req_EM_T (0 + 3 * 5) 0) as [E|_]; [exfalso; lra|eexists; reflexivity].
+Qed.
